@@ -40,8 +40,9 @@ theorem stack_bounded_step (cx : Ctx) (ht : TableOk cx.table) (ro : Bool) (fr : 
   · intro req d g2 cr hex
     have hi := execOp_invoke _ _ _ _ _ _ _ _ _ _ hex
     have hpush : info.exec.pushes = 1 := by
-      rcases hi with ⟨he, _⟩ | ⟨k, he, _⟩
+      rcases hi with ⟨he, _⟩ | ⟨k, he, _⟩ | ⟨he, _⟩
       · rcases he with he | he <;> (rw [he]; rfl)
+      · rw [he]; rfl
       · rw [he]; rfl
     rw [(resume_spec _ req cr).2]
     simp only
@@ -50,7 +51,7 @@ theorem stack_bounded_step (cx : Ctx) (ht : TableOk cx.table) (ro : Bool) (fr : 
 -- non-vacuity: the hypothesis is satisfiable — ADD on a two-word stack passes the validation
 set_option maxRecDepth 20000 in
 example : ∃ info fr1 args g1 cgt,
-    stepPre demoCtx false { (mkFrame #[0x01] 1000 0 0 0 #[]) with stack := [1, 2] } ⟨[], 0, #[]⟩
+    stepPre demoCtx false { (mkFrame #[0x01] 1000 0 0 0 #[]) with stack := [1, 2] } (Global.start [])
       = .ok info fr1 args g1 cgt := ⟨_, _, _, _, _, rfl⟩
 
 /-! ## depth_bounded -/
